@@ -32,6 +32,9 @@ class WorkerDied(Exception):
         Exception.__init__(self, "worker died rc=%s on %r" % (rc, cmd[:200]))
         self.cmd, self.rc, self.err = cmd, rc, err
 
+    def __reduce__(self):              # picklable: an uncaught worker death inside a pool process must surface as itself, not as a TypeError
+        return (WorkerDied, (self.cmd, self.rc, self.err))
+
 
 class WorkerHang(Exception):
     pass
